@@ -49,8 +49,21 @@ def cases(tier, seed):
         for backend in ('make', 'ninja'):
             for pkgconf in pk:
                 nchunk = 1 if s == 'script-raises' else NCHUNK
-                for c in range(nchunk):
+                forms = [None]
+                if s == 'script-raises':
+                    # every way a script can stop with an error, in every kind of script
+                    stmts = ["raise RuntimeError('boom')", "exit('error: cannot go on')",
+                             "import sys; sys.exit('giving up')", "exit(3)",
+                             "raise SystemExit('stop')", "x = 1 / 0", "def broken(:",
+                             "undefined_name_here", "exit(True)", "exit([1])"]
+                    wheres = ['build', 'build-early', 'options', 'submodule', 'toolchain']
+                    forms = [[wh, st] for wh in wheres for st in stmts
+                             if tier == 'thorough' or wh == 'build' or
+                             st in (stmts[0], stmts[1], stmts[6])]
+                for form in forms:
+                  for c in range(nchunk):
                     yield {'scenario': s, 'backend': backend, 'pkgconf': pkgconf,
+                           'raise_form': form,
                            'chunk': c, 'nchunk': nchunk,
                            'double': ('all' if tier == 'thorough' else
                                       'window' if backend == 'make' else None)
@@ -198,9 +211,24 @@ class World:
         elif scenario == 'edit-toolchain':
             w('tc.bfg', "compile_options(['-DTC=2'], 'c')\n")
         elif scenario == 'script-raises':
-            w('build.bfg', bfg_text(self.case['pkgconf'],
-                                    "copy_file('extra.out', 'data/x.txt')\n"
-                                    "raise RuntimeError('boom')\n"))
+            form = self.case.get('raise_form') or ['build', "raise RuntimeError('boom')"]
+            where, stmt = form
+            extra = "copy_file('extra.out', 'data/x.txt')\n"
+            if where == 'build':
+                w('build.bfg', bfg_text(self.case['pkgconf'], extra + stmt + '\n'))
+            elif where == 'build-early':
+                # fails before most of the project is declared
+                w('build.bfg', "project('p', '1.0', find_exclude=['*~'])\n" + extra + stmt + '\n' +
+                  bfg_text(self.case['pkgconf']).split('\n', 1)[1])
+            elif where == 'options':
+                w('options.bfg', "argument('flavor', default='x')\n" + stmt + '\n')
+            elif where == 'submodule':
+                os.makedirs(os.path.join(self.src, 'sub'), exist_ok=True)
+                w('sub/build.bfg', "copy_file('s.out', 's.in')\n" + stmt + '\n')
+                w('sub/s.in', 's\n')
+                w('build.bfg', bfg_text(self.case['pkgconf'], extra + "submodule('sub')\n"))
+            elif where == 'toolchain':
+                w('tc.bfg', "compile_options(['-DTC=1'], 'c')\n" + stmt + '\n')
 
     def cleanup(self):
         core.rmtree(self.root)
@@ -248,18 +276,22 @@ def run_case(case):
         if scenario == 'script-raises':
             res.evaluations = 1
             res.ev('script-raises:runs')
-            res.key([scenario, backend], True)
+            form = case.get('raise_form') or ['build', "raise RuntimeError('boom')"]
+            res.key([scenario, backend] + form, True)
+            wb = dict(wb, where=form[0], statement=form[1])
+            res.classes.add('script-fails-in:' + form[0])
             now = w.files()
             if rc == 0:
-                res.violate((backend, 'script-raises', 'build-succeeded'), dict(wb, output=out[-500:]))
+                res.violate((backend, 'script-raises', 'build-succeeded', form[0]),
+                            dict(wb, output=out[-500:]))
             if now != old:
                 bad = sorted(n for n in set(now) | set(old) if now.get(n) != old.get(n))
-                res.violate((backend, 'script-raises', 'build-file-touched'),
+                res.violate((backend, 'script-raises', 'build-file-touched', form[0]),
                             dict(wb, files=bad))
             # and the follow-up still fails loudly or is right
             rc2, out2 = w.backend_run()
             if rc2 == 0 and w.files() != old:
-                res.violate((backend, 'script-raises', 'follow-up-silently-different'), wb)
+                res.violate((backend, 'script-raises', 'follow-up-silently-different', form[0]), wb)
             res.ev('followups:judged')
             res.sample = dict(wb, rc=rc, output=out[-300:])
             return res
